@@ -179,11 +179,11 @@ pub mod life {
     /// was closed before (explicitly or by the last sender going away) and a sender handle keeps the state alive.
     /// Public API only, no futures: create(capacity 2), k try_sends, optional clone of the receiver, optional explicit
     /// close() from either side, then drop the receiver handles in a symbolic order.
-    pub fn mpmc_discard<M: lock_api::RawMutex + 'static, S: Src>(s: &mut S, p: u32) -> u32 {
+    pub type B2 = crate::buffer::ArrayBuf<Tag, [Tag; 2]>;
+    pub fn mpmc_discard<M: lock_api::RawMutex + 'static, B: crate::buffer::RingBuf<Item = Tag> + 'static, S: Src>(s: &mut S, p: u32) -> u32 {
         #[cfg(not(kani))]
         reset_tags();
-        type B2 = crate::buffer::ArrayBuf<Tag, [Tag; 2]>;
-        let (tx, rx) = crate::channel::shared::generic_channel::<M, Tag, B2>(2);
+        let (tx, rx) = crate::channel::shared::generic_channel::<M, Tag, B>(2);
         let k = s.below(3);
         if k > 0 { core::mem::forget(tx.try_send(Tag(1))); }
         if k > 1 { core::mem::forget(tx.try_send(Tag(2))); }
@@ -509,8 +509,9 @@ pub mod life {
             "shared_polls" => { shared_polls::<NL, _>(s, p); }
             "shared_polls_check" => { shared_polls::<CheckLock, _>(s, p); }
             "shared_mpmc" => { shared_mpmc::<NL, _>(s, 64, p); }
-            "life_mpmc_discard" => { mpmc_discard::<NL, _>(s, p); }
-            "life_mpmc_discard_check" => { mpmc_discard::<CheckLock, _>(s, p); }
+            "life_mpmc_discard" => { mpmc_discard::<NL, B2, _>(s, p); }
+            "life_mpmc_discard_fixed" => { mpmc_discard::<NL, crate::buffer::FixedHeapBuf<Tag>, _>(s, p); }
+            "life_mpmc_discard_check" => { mpmc_discard::<CheckLock, B2, _>(s, p); }
             "life_mpmc" => { hist::<Mpmc<NL>, _>(s, 64, p); }
             "life_oneshot" => { hist::<Oneshot<NL>, _>(s, 64, p); }
             "life_oneshot_bc" => { hist::<OneshotBc<NL>, _>(s, 64, p); }
@@ -617,22 +618,22 @@ pub mod life {
         #[kani::proof]
         #[kani::unwind(4)]
         fn life_mpmc_discard() {
-            let b = mpmc_discard::<NL, _>(&mut KaniSrc, P11);
+            let b = mpmc_discard::<NL, B2, _>(&mut KaniSrc, P11);
             kani::cover!(b & 3 == 2 && (b >> 3) == 1, "W discard: two values buffered, closed by the sender before the last receiver goes");
         }
         #[kani::proof]
         #[kani::unwind(4)]
         fn life_mpmc_discard_c08() {
-            let b = mpmc_discard::<NL, _>(&mut KaniSrc, P08);
+            let b = mpmc_discard::<NL, B2, _>(&mut KaniSrc, P08);
             kani::cover!((b >> 2) & 1 == 1 && b & 3 == 2, "W discard: a receiver clone exists while two values are buffered");
         }
         #[kani::proof]
         #[kani::unwind(4)]
-        fn life_mpmc_discard_check() { let _ = mpmc_discard::<CheckLock, _>(&mut KaniSrc, P11); }
+        fn life_mpmc_discard_check() { let _ = mpmc_discard::<CheckLock, B2, _>(&mut KaniSrc, P11); }
         #[kani::proof]
         #[kani::unwind(4)]
         fn life_witness_mpmc_discard() {
-            let b = mpmc_discard::<NL, _>(&mut KaniSrc, 0);
+            let b = mpmc_discard::<NL, B2, _>(&mut KaniSrc, 0);
             assert!(!(b & 3 == 2 && (b >> 3) == 1 && (b >> 2) & 1 == 0), "WITNESS reached");
         }
         #[kani::proof]
